@@ -73,6 +73,58 @@ Proof.
 Qed.
 
 (* ------------------------------------------------------------------ *)
+(* fuel sufficiency: the bisection always ends within the fuel the model
+   gives it (the interval at least halves, rounding up, at every step) *)
+
+Lemma root_loop_total : forall (f : nat) x n low high,
+  high - low <= 2 ^ N.of_nat f ->
+  exists r, root_loop (S f) x n low high = Ok r.
+Proof.
+  induction f as [|f IH]; intros x n low high Hw.
+  - cbn [root_loop]. set (g := (low + high) / 2).
+    assert (Hdm : low + high = 2 * g + (low + high) mod 2) by (unfold g; apply N.div_mod').
+    assert (Hm : (low + high) mod 2 < 2) by (apply N.mod_lt; discriminate).
+    set (md := (low + high) mod 2) in *. clearbody md. clearbody g.
+    change (2 ^ N.of_nat 0) with 1 in Hw.
+    destruct (g ^ n ?= x); [eexists; reflexivity| |].
+    + destruct (N.leb_spec (high - g) 1) as [_|Hc]; [eexists; reflexivity|lia].
+    + destruct (N.leb_spec (g - low) 1) as [_|Hc]; [eexists; reflexivity|lia].
+  - remember (S f) as f1. cbn [root_loop]. subst f1. set (g := (low + high) / 2).
+    assert (Hpow : 2 ^ N.of_nat (S f) = 2 * 2 ^ N.of_nat f).
+    { rewrite Nat2N.inj_succ, N.pow_succ_r'. reflexivity. }
+    rewrite Hpow in Hw.
+    assert (Hdm : low + high = 2 * g + (low + high) mod 2).
+    { unfold g. apply N.div_mod'. }
+    assert (Hm : (low + high) mod 2 < 2) by (apply N.mod_lt; discriminate).
+    set (md := (low + high) mod 2) in *. clearbody md. clearbody g.
+    set (P := 2 ^ N.of_nat f) in *. clearbody P.
+    destruct (g ^ n ?= x); [eexists; reflexivity| |].
+    + destruct (N.leb_spec (high - g) 1) as [_|Hc]; [eexists; reflexivity|].
+      apply IH. lia.
+    + destruct (N.leb_spec (g - low) 1) as [_|Hc]; [eexists; reflexivity|].
+      apply IH. lia.
+Qed.
+
+(* BigUint::root_n never runs out of the model's fuel: it returns a root, or
+   one of the two guards (index >= 2^64: OutOfRange; index 0: the division by
+   zero of biguint.rs:244) *)
+Theorem biguint_root_n_total : forall x n,
+  (exists r, biguint_root_n x n = Ok r) \/ biguint_root_n x n = Err EOutOfRange \/
+  biguint_root_n x n = Panic 244.
+Proof.
+  intros x n. unfold biguint_root_n.
+  destruct ((x =? 0) || (x =? 1) || (n =? 1))%bool; [left; eexists; reflexivity|].
+  destruct (usize_limit <=? n); [right; left; reflexivity|].
+  destruct (n =? 0); [right; right; reflexivity|].
+  left. set (mb := N.size x / n + 1).
+  assert (Hf : N.to_nat (mb + 4) = S (N.to_nat (mb + 3))) by lia.
+  rewrite Hf. apply root_loop_total.
+  rewrite N2Nat.id.
+  assert (2 ^ (mb + 1) <= 2 ^ (mb + 3)) by (apply N.pow_le_mono_r; lia).
+  lia.
+Qed.
+
+(* ------------------------------------------------------------------ *)
 (* BigRat::iter_root_n: after k halvings the result is the midpoint of a
    bracket [lo, hi] of width (high - low) / 2^k that still contains the root *)
 
